@@ -146,16 +146,22 @@ func (t *TxController) Rollback(ctx context.Context) error {
 	if !t.ownsFinalization {
 		return nil
 	}
-	err := t.tx.Rollback()
 	if t.finalized {
-		return err
+		return t.tx.Rollback()
 	}
 	t.finalized = true
 	_ = verifhook.HitCtx(ctx, "tx.rollback.enter")
+	// Undo side effects (published files) while the transaction still holds the
+	// database write lock, so that no later writer can interleave with the undo.
+	var firstHookErr error
 	for _, fn := range t.onRollback {
-		if hookErr := fn(ctx); hookErr != nil && err == nil {
-			err = hookErr
+		if hookErr := fn(ctx); hookErr != nil && firstHookErr == nil {
+			firstHookErr = hookErr
 		}
+	}
+	err := t.tx.Rollback()
+	if err == nil {
+		err = firstHookErr
 	}
 	return err
 }
